@@ -410,7 +410,7 @@ def state_path(tlc_out, sid):
 
 # --------------------------------------------------------------------------- known findings
 def load_known():
-    p = os.path.join(VERIF, 'known_findings.json')
+    p = os.environ.get('VERIF_KNOWN_FILE') or os.path.join(VERIF, 'known_findings.json')   # (override: runner self-test only)
     if not os.path.exists(p):
         return []
     return json.load(open(p)).get('known', [])
